@@ -2,7 +2,7 @@
    transition blocks change shape this file stops compiling), and the parser lemma: the closed form parses, by
    Python's block rule, to the explicit program [prog_of t]. *)
 From Coq Require Import String Ascii List Bool Arith Lia.
-From KV Require Import Lib.TableDef Model.TTable Model.PyShape Spec.TableInterp Gen.PyTmpl Model.PySM.
+From KV Require Import Lib.TableDef Model.TTable Model.PyShape Spec.TableInterp Gen.PyTmpl Model.PySM Proofs.TTableProofs.
 Import ListNotations.
 Open Scope string_scope.
 
@@ -226,18 +226,7 @@ Proof.
 Qed.
 
 (* ---- facts about the table model needed here *)
-Lemma In_filter_neq : forall x y l, In x (filter (fun z => negb (String.eqb z y)) l) <-> In x l /\ x <> y.
-Proof.
-  intros. rewrite filter_In. split; intros [H1 H2]; split; auto.
-  - intro E. subst. rewrite String.eqb_refl in H2. discriminate.
-  - apply negb_true_iff. apply String.eqb_neq. assumption.
-Qed.
 
-Lemma In_dedup : forall x l, In x (dedup l) <-> In x l.
-Proof.
-  induction l as [|y l IH]; [tauto|]. cbn [dedup In]. rewrite In_filter_neq, IH.
-  destruct (string_dec y x); [subst; tauto|]. split; [tauto|]. intros [H|H]; [congruence|]. right. split; auto.
-Qed.
 
 Lemma events_of_trans : forall t s e, In e (events_of t s) -> trans_of t s e <> [].
 Proof.
